@@ -719,6 +719,178 @@ func constants(repo string) {
 	}
 }
 
+// ==== BEGIN C20/C06 addition (builder "reply"): simRegistry ==============================================
+// T5b: the terminal simulator's handler table (terminal/handle.go defaultProtocolHandles) in source order:
+//   (command, (ReplyProtocol, Protocol, ReplyBody declarer)) where the model type is found behind the
+//   value expression (&model.T{}, a local constructor newX(...) returning &model.T{...}, or
+//   newDefaultHandle(consts.C) whose switch assigns &model.T{...}); "ReplyBody declarer" = Protocol() of the
+//   type that declares the ReplyBody method the handler ends up with (0: BaseHandle's general response,
+//   65535: the simulator's defaultHandle wrapper, whose ReplyBody returns nil).
+// and, for the server's createDefaultHandle, (registered id, ReplyBody declarer) in source order.
+func replyBodyDeclarer(model map[string]*ast.File, typ string, depth int) (int64, bool) {
+	if depth > 3 {
+		return 0, false
+	}
+	if findFunc(model, typ, "ReplyBody") != nil {
+		if typ == "BaseHandle" {
+			return 0, true
+		}
+		return constMethod(model, typ, "Protocol", 0)
+	}
+	_, emb := structFields(model, typ)
+	for _, e := range emb {
+		if v, ok := replyBodyDeclarer(model, e, depth+1); ok {
+			return v, true
+		}
+	}
+	return 0, false
+}
+
+func firstModelLit(n ast.Node) string {
+	typ := ""
+	ast.Inspect(n, func(n ast.Node) bool {
+		if typ != "" {
+			return false
+		}
+		if c, ok := n.(*ast.CompositeLit); ok {
+			if se, ok := c.Type.(*ast.SelectorExpr); ok {
+				if id, ok := se.X.(*ast.Ident); ok && id.Name == "model" {
+					typ = se.Sel.Name
+					return false
+				}
+			}
+		}
+		return true
+	})
+	return typ
+}
+
+func mapLiteral(fd *ast.FuncDecl) *ast.CompositeLit {
+	var lit *ast.CompositeLit
+	ast.Inspect(fd.Body, func(n ast.Node) bool {
+		if c, ok := n.(*ast.CompositeLit); ok && lit == nil {
+			if _, ok := c.Type.(*ast.MapType); ok {
+				lit = c
+			}
+		}
+		return true
+	})
+	return lit
+}
+
+func simRegistry(term, svc, model map[string]*ast.File) {
+	// --- the simulator
+	fd := findFunc(term, "", "defaultProtocolHandles")
+	if fd == nil {
+		fail("sim_registry", "defaultProtocolHandles not found")
+		return
+	}
+	lit := mapLiteral(fd)
+	if lit == nil {
+		fail("sim_registry", "map literal not found")
+		return
+	}
+	// newDefaultHandle: case consts.C: tmp = &model.T{...}
+	wrapped := map[int64]string{}
+	if nd := findFunc(term, "", "newDefaultHandle"); nd != nil {
+		ast.Inspect(nd.Body, func(n ast.Node) bool {
+			if cc, ok := n.(*ast.CaseClause); ok {
+				for _, e := range cc.List {
+					if v, ok := intOf(e, nil); ok {
+						for _, st := range cc.Body {
+							if t := firstModelLit(st); t != "" {
+								wrapped[v] = t
+							}
+						}
+					}
+				}
+			}
+			return true
+		})
+	}
+	wrapperHasReplyBody := findFunc(term, "defaultHandle", "ReplyBody") != nil
+	var rows []string
+	for _, el := range lit.Elts {
+		kv, ok := el.(*ast.KeyValueExpr)
+		if !ok {
+			fail("sim_registry", "element")
+			return
+		}
+		id, ok := intOf(kv.Key, nil)
+		if !ok {
+			fail("sim_registry", "key")
+			return
+		}
+		typ, isWrapped := "", false
+		switch v := kv.Value.(type) {
+		case *ast.UnaryExpr:
+			typ = firstModelLit(v)
+		case *ast.CallExpr:
+			if fn, ok := v.Fun.(*ast.Ident); ok {
+				if fn.Name == "newDefaultHandle" && len(v.Args) == 1 {
+					if c, ok := intOf(v.Args[0], nil); ok {
+						typ, isWrapped = wrapped[c], true
+					}
+				} else if cf := findFunc(term, "", fn.Name); cf != nil {
+					typ = firstModelLit(cf.Body)
+				}
+			}
+		}
+		rid, ok2 := constMethod(model, typ, "ReplyProtocol", 0)
+		prot, ok3 := constMethod(model, typ, "Protocol", 0)
+		decl, ok4 := replyBodyDeclarer(model, typ, 0)
+		if isWrapped {
+			if !wrapperHasReplyBody {
+				fail("sim_registry", "defaultHandle.ReplyBody not found")
+				return
+			}
+			decl, ok4 = 65535, true
+		}
+		if typ == "" || !ok2 || !ok3 || !ok4 {
+			fail("sim_registry", fmt.Sprintf("handler of %d (%s)", id, typ))
+			return
+		}
+		rows = append(rows, fmt.Sprintf("(%d, (%d, %d, %d))", id, rid, prot, decl))
+	}
+	fmt.Fprintf(&out, "(* terminal defaultProtocolHandles in source order: (command, (ReplyProtocol, Protocol, ReplyBody declarer)) *)\n")
+	fmt.Fprintf(&out, "Definition gen_sim_registry : list (N * (N * N * N)) := [%s].\n\n", strings.Join(rows, "; "))
+	// --- the server: which ReplyBody each registered type ends up with
+	sf := findFunc(svc, "GoJT808", "createDefaultHandle")
+	if sf == nil {
+		fail("reply_body_decl", "createDefaultHandle not found")
+		return
+	}
+	sl := mapLiteral(sf)
+	if sl == nil {
+		fail("reply_body_decl", "map literal not found")
+		return
+	}
+	rows = nil
+	for _, el := range sl.Elts {
+		kv := el.(*ast.KeyValueExpr)
+		id, ok := intOf(kv.Key, nil)
+		typ := firstModelLit(kv.Value)
+		decl, ok2 := replyBodyDeclarer(model, typ, 0)
+		if !ok || typ == "" || !ok2 {
+			fail("reply_body_decl", fmt.Sprintf("handler of %d (%s)", id, typ))
+			return
+		}
+		rows = append(rows, fmt.Sprintf("(%d, %d)", id, decl))
+	}
+	fmt.Fprintf(&out, "(* createDefaultHandle in source order: (registered id, ReplyBody declarer) *)\n")
+	fmt.Fprintf(&out, "Definition gen_reply_body_decl : list (N * N) := [%s].\n\n", strings.Join(rows, "; "))
+	// --- the message ids connection.onActiveRespondEvent can hand to a waiting SendActiveMessage caller
+	// (the cases of its switch, in source order; the writer tries it only when hasComplete())
+	if rf := findFunc(svc, "connection", "onActiveRespondEvent"); rf != nil {
+		fmt.Fprintf(&out, "(* connection.onActiveRespondEvent: the message ids of its switch, in source order *)\n")
+		fmt.Fprintf(&out, "Definition gen_active_respond_ids : list N := %s.\n\n", nlist(caseValues(rf, nil)))
+	} else {
+		fail("active_respond_ids", "onActiveRespondEvent not found")
+	}
+}
+
+// ==== END C20/C06 addition ================================================================================
+
 func main() {
 	repo := flag.String("repo", "/repo", "repository root")
 	outp := flag.String("out", "", "output .v file")
@@ -737,6 +909,7 @@ func main() {
 	dialectWidths(model)
 	replyRegistry(svc, model)
 	constants(*repo)
+	simRegistry(parseDir(filepath.Join(*repo, "terminal")), svc, model) // C20/C06 addition
 	q := make([]string, len(unrecognised))
 	for i, u := range unrecognised {
 		q[i] = strconv.Quote(u) + "%string"
